@@ -24,6 +24,7 @@ import vlib
 from vlib import proof_coverage
 
 import spec_paths
+import spec_stmts
 
 LEVEL = "proof"
 KNOWN_BORROW_KEY = "wording:borrowed-variable-live-on-idle-cycle"
@@ -98,6 +99,24 @@ def small_space(n, kinds, r=None, stats_per_graph=None):
                     yield dict(base, kind="ass", D0=[0], M0=[0])
                 elif kind == "an":
                     yield dict(base, kind="analyze", D0=[], M0=[], inout=[0])
+
+
+def expected_of(case):
+    return spec_stmts.expected(case) if case["kind"] == "stmts" else spec_paths.expected(case)
+
+
+def rand_stmts_case(r):
+    """A CFG whose blocks hold generated real statements (compound assignment targets,
+    augmented / annotated assignments, expression statements, returns, branch predicates)."""
+    case = rand_case(r, kind="analyze", nmax=5, nvars=4)
+    names = [f"v{i}" for i in range(4)]
+    n = len(case["succ"])
+    case["kind"] = "stmts"
+    case["src"] = [spec_stmts.gen_block(r, names) for _ in range(n)]
+    case["pred"] = [spec_stmts.gen_expr(r, names) if len(set(case["succ"][i])) > 1 and r.random() < 0.8 else None
+                    for i in range(n)]
+    del case["use"], case["def"]
+    return case
 
 
 def nontrivial(case):
@@ -219,7 +238,7 @@ def run(ctx):
         outs = impl_batch(ctx, "explore", cases)
         bad = 0
         for case, o in zip(cases, outs):
-            exp = spec_paths.expected(case)
+            exp = expected_of(case)
             n_explore_runs += o["runs"]
             n_states += o["states"]
             explored_cases += 1
@@ -259,7 +278,7 @@ def run(ctx):
     agree_cod = sum(1 for i, v in coded.items() if v == impl[i].get("res", impl[i]))
     for i, (case, o) in enumerate(zip(cases, impl)):
         res = o.get("res", o)
-        exp = spec_paths.expected(case)
+        exp = expected_of(case)
         if res != exp:
             spec_bad += 1
             report_spec(case, res, exp, "random (CFG, schedule) pair; pops=" + str(o.get("pops")),
@@ -284,13 +303,35 @@ def run(ctx):
     if model_rep is not None:
         for i in mism:
             res = impl[i].get("res", impl[i])
-            if res == spec_paths.expected(cases[i]):
+            if res == expected_of(cases[i]):
                 ctx.report("model-mismatch:" + canon(cases[i]) + str(cases[i]["sched"]), "correspondence",
                            "Analysis.v run_with vs real analysis", {"case": cases[i], "impl": res, "model": model_rep[i]})
                 break
     else:
         ctx.report("model-eval", "correspondence", "Analysis.v could not be evaluated",
                    {"notes": ctx.notes}, found_input=False)
+
+    # ---- 2b. statement level: real statements through BB.compute_variable_stats + CFG.analyze
+    n_st = 500 if ctx.quick else 5000
+    st_cases = [rand_stmts_case(r) for _ in range(n_st)]
+    st_impl = impl_batch(ctx, "run", st_cases)
+    st_bad = 0
+    compound = 0
+    for case, o in zip(st_cases, st_impl):
+        res = o.get("res", o)
+        exp = spec_stmts.expected(case)
+        compound += 1 if any(("," in s.split("=")[0] and "=" in s) for s in "\n".join(case["src"]).split("\n")) else 0
+        if res != exp:
+            st_bad += 1
+            bad_blocks = []
+            if isinstance(res, list) and len(res) == 4:
+                bad_blocks = [{"block": i, "statements": case["src"][i], "branch_pred": case["pred"][i],
+                               "used_assigned_by_real_code": res[3][i], "used_assigned_by_evaluation_order": exp[3][i]}
+                              for i in range(len(exp[3])) if res[3][i] != exp[3][i]]
+            report_spec(case, res, exp, "statement-level case (real statements -> compute_variable_stats -> CFG.analyze); pops=" + str(o.get("pops")),
+                        {"blocks_whose_use_def_sets_differ": bad_blocks,
+                         "result_format": "[live, def, maybe, [[used, assigned] per block]]; variable v<i> is written i"})
+    timing["stmts"] = round(time.time() - t0, 1)
 
     # ---- 3. failing-input search: small CFGs x every pop order
     small = list(small_space(2, ["live0", "live1", "liveR", "ass0", "ass1", "ass2", "an"]))
@@ -326,7 +367,7 @@ def run(ctx):
                        {"coq_error": vlib.CoqResult(False, info["log"]).error_excerpt(),
                         "searched": {"random_pairs": len(cases), "explored_cases": explored_cases}}, found_input=False)
 
-    allc = corpus + cases + small
+    allc = corpus + cases + small + st_cases
     distinct = {canon(c) for c in allc if nontrivial(c)}
     hist = {}
     for c in allc:
@@ -339,7 +380,7 @@ def run(ctx):
          "props/C09/impl_analysis.py: the injected work-list classes (module globals `set` and `dict` of analysis.py; evidence key schedule_injected says in how many cases the harness really chose the pops), the frame inspection used to memoise explored states, AST statements built to make compute_variable_stats yield given use/def sets",
          "props/C09/spec_paths.py: brute-force path specification (for initial-set variables: 'path to a use or idle walk of n edges', for maybe_ass_before_entry variables: 'assigning path or backward walk of n edges' -- exactly the forms of live_char_initial_nwalk / maybe_char_initial_nwalk)",
          "not modelled: the witness block stored in the liveness dict (C10), ForwardAnalysis with include_unreachable=False (unused in /repo), VariableVisitor"],
-        evaluations=len(cases) + n_explore_runs, distinct_nontrivial=len(distinct),
+        evaluations=len(cases) + len(st_cases) + n_explore_runs, statement_level_cases=len(st_cases), statement_level_cases_with_compound_targets=compound, statement_level_disagreements=st_bad, distinct_nontrivial=len(distinct),
         rule="random: seeded CFGs of 2..6 blocks (sparse/dense/chain, dummy edges, duplicate edges, self loops, unreachable blocks), 3-4 variables, kinds live/ass/analyze, random schedule (rank of the popped block); search: ALL graphs on 2 blocks x all use/def patterns x 7 configurations, a slice of all graphs on 3 blocks, random CFGs of <=5-6 blocks, each under EVERY pop order (state-graph exploration of the real loop); non-trivial = at least one dummy edge or a cycle; distinct = by CFG+sets+configuration (schedule ignored)",
         traces_validated_against_impl=min(agree_rep, injected_ok), schedule_injected={k: f"{v[0]}/{v[1]} cases" for k, v in inj.items()}, model_vs_impl_cases=len(cases) if model_rep is not None else 0,
         model_repaired_agrees=agree_rep, model_mismatches=len(mism), mismatches_explained_by_as_released_requeue=agree_cod,
